@@ -266,3 +266,20 @@ Definition uok (c : ucase) : bool :=
   && forallb (fun x => mem_str x (u_in c)) pre
   && forallb (fun x => mem_str x pre) (u_in c)
   && Nat.eqb (List.length (u_out c)) (List.length (u_in c)).
+
+(* ---- end-to-end stream: Calcium.CalculateCapacity (public API) over nodes added with
+   Calcium.AddNode.  Observed: the keys of CapacityMessage.NodeCapacities (sorted), None when the
+   call fails; with no node selected the call fails with "insufficient resource". ---- *)
+Record ccase := mkC { cc_store : store; cc_filter : nfilter; cc_obs : option (list string) }.
+Definition cagree (c : ccase) : bool :=
+  match filter_nodes (cc_store c) (cc_filter c), cc_obs c with
+  | None, None => true
+  | Some [], None => true
+  | Some (n :: ns), Some l => strs_eqb (map n_name (n :: ns)) l
+  | _, _ => false
+  end.
+Definition cok (c : ccase) : bool :=
+  match cc_obs c with
+  | Some names => select_ok (cc_store c) (cc_filter c) (Some names)
+  | None => select_ok (cc_store c) (cc_filter c) None || select_ok (cc_store c) (cc_filter c) (Some [])
+  end.
